@@ -17,6 +17,7 @@ type KnownFinding struct {
 	Property   string `json:"property"`
 	Obligation string `json:"obligation"`
 	What       string `json:"what"`
+	Summary    string `json:"summary,omitempty"`
 	Replay     string `json:"replay,omitempty"`
 }
 
@@ -168,6 +169,14 @@ func cmdCheck(args []string) int {
 		if r.Aborted != "" {
 			undecided = append(undecided, fmt.Sprintf("%s: %s", r.Key, r.Aborted))
 		}
+		// clause-level property tags: keep only the obligations that count for this property
+		var kept []*Obligation
+		for _, o := range r.Obls {
+			if len(o.Props) == 0 || hasProp(o.Props, prop) {
+				kept = append(kept, o)
+			}
+		}
+		r.Obls = kept
 		results = append(results, r)
 		all = append(all, r.Obls...)
 	}
@@ -245,6 +254,7 @@ func cmdCheck(args []string) int {
 
 	discharged := 0
 	violations := 0
+	knownHit := 0
 	var lines []string
 	var samples []interface{}
 	for _, n := range names {
@@ -258,7 +268,13 @@ func cmdCheck(args []string) int {
 		}
 		samples = append(samples, map[string]interface{}{"obligation": n, "result": ns.Status, "seconds": round3(ns.Seconds), "instances": ns.Instances, "what": ns.Desc})
 		if f, ok := known[n]; ok {
-			lines = append(lines, fmt.Sprintf("KNOWN-FINDING: property=%s %s %s", prop, n, f.What))
+			sum := f.Summary
+			if sum == "" {
+				sum = f.What
+			}
+			lines = append(lines, fmt.Sprintf("KNOWN-FINDING: property=%s %s %s", prop, n, sum))
+			knownHit++
+			ev.Coverage.KnownFindings = append(ev.Coverage.KnownFindings, map[string]interface{}{"obligation": n, "result": ns.Status, "what": f.What, "replay": f.Replay})
 			continue
 		}
 		if ns.Status == "error" {
@@ -281,6 +297,28 @@ func cmdCheck(args []string) int {
 			undecided = append(undecided, fmt.Sprintf("new obligation %s is %s (%s) and no model replays", n, ns.Status, rnote))
 		}
 	}
+	// bounded stand-ins (labelled bounded, never counted as obligations)
+	if tmpls, _ := filepath.Glob(filepath.Join(vd, "bounded", prop, "*.go.tmpl")); len(tmpls) > 0 {
+		for _, tmpl := range tmpls {
+			failed, _, out, _ := runReplayTemplateV(*repo, tmpl, map[string]string{}, true)
+			rec := map[string]interface{}{"stand_in": filepath.Base(tmpl), "label": "bounded (exhaustive up to the stated bound; not a proof)", "result": "held"}
+			for _, l := range strings.Split(out, "\n") {
+				if i := strings.Index(l, "GOVC-BOUNDED "); i >= 0 {
+					rec["cases"] = strings.TrimSpace(l[i+len("GOVC-BOUNDED "):])
+				}
+			}
+			if failed {
+				rec["result"] = "violated"
+				violations++
+				rp := filepath.Join(od, "replays", prop, "bounded_"+mangle(filepath.Base(tmpl))+".json")
+				os.MkdirAll(filepath.Dir(rp), 0o755)
+				b, _ := json.MarshalIndent(map[string]interface{}{"property": prop, "bounded_stand_in": filepath.Base(tmpl), "test_output": out}, "", " ")
+				os.WriteFile(rp, b, 0o644)
+				lines = append(lines, fmt.Sprintf("VIOLATION property=%s replay=%s", prop, rp))
+			}
+			ev.Coverage.Bounded = append(ev.Coverage.Bounded, rec)
+		}
+	}
 	// known findings that no longer fail are simply not printed (fixed entries suppress nothing)
 
 	// missing baseline obligations
@@ -297,9 +335,18 @@ func cmdCheck(args []string) int {
 	sort.Strings(undecided)
 
 	// evidence
-	ev.Coverage.Obligations = len(names)
+	// obligations recorded as known findings are reported separately (KNOWN-FINDING lines, coverage.known_findings)
+	// and are not part of the proof claim
+	ev.Coverage.Obligations = len(names) - knownHit
 	ev.Coverage.Discharged = discharged
 	ev.Coverage.Samples = samples
+	// slowest obligations (seconds summed over their path instances): candidates for proof hints
+	slow := append([]string(nil), names...)
+	sort.Slice(slow, func(i, j int) bool { return byName[slow[i]].Seconds > byName[slow[j]].Seconds })
+	for i := 0; i < len(slow) && i < 5; i++ {
+		ns := byName[slow[i]]
+		ev.Coverage.Slowest = append(ev.Coverage.Slowest, map[string]interface{}{"obligation": slow[i], "seconds": round3(ns.Seconds), "instances": ns.Instances, "solver": ns.Solver})
+	}
 	ev.Coverage.Instances = len(all)
 	ev.Coverage.SolverSeconds = round3(solverTime)
 	ev.Coverage.LoadSeconds = round3(loadS)
@@ -321,7 +368,7 @@ func cmdCheck(args []string) int {
 		ev.addAssumption("known finding (reported, not counted as discharged): " + k + " — " + known[k].What)
 	}
 	ev.Violations = violations
-	if discharged != len(names) || len(undecided) > 0 {
+	if discharged != len(names)-knownHit || len(undecided) > 0 {
 		ev.Level = "other"
 		ev.Coverage.Explanation = fmt.Sprintf("contract-based deductive verification: %d of %d obligations discharged; undecided: %d (see coverage.undecided); known findings: %d", discharged, len(names), len(undecided), len(known))
 	}
@@ -397,6 +444,8 @@ type Evidence struct {
 		Vacuity       string                   `json:"vacuity"`
 		Explanation   string                   `json:"explanation,omitempty"`
 		Bounded       []interface{}            `json:"bounded,omitempty"`
+		KnownFindings []interface{}            `json:"known_findings,omitempty"`
+		Slowest       []interface{}            `json:"slowest_obligations,omitempty"`
 	} `json:"coverage"`
 	Assumptions []string `json:"assumptions"`
 	WallS       float64  `json:"wall_s"`
@@ -634,6 +683,10 @@ func parseModelInts(model string) map[string]string {
 }
 
 func runReplayTemplate(repo, tmpl string, o *Obligation, model map[string]string) (bool, string, string, string) {
+	return runReplayTemplateV(repo, tmpl, model, false)
+}
+
+func runReplayTemplateV(repo, tmpl string, model map[string]string, verbose bool) (bool, string, string, string) {
 	b, err := os.ReadFile(tmpl)
 	if err != nil {
 		return false, "", "", err.Error()
@@ -696,7 +749,12 @@ func runReplayTemplate(repo, tmpl string, o *Obligation, model map[string]string
 	ob, _ := json.Marshal(ov)
 	ovFile := filepath.Join(d, "overlay.json")
 	os.WriteFile(ovFile, ob, 0o644)
-	cmd := exec.Command("go", "test", "-modfile="+filepath.Join(d, "go.mod"), "-overlay", ovFile, "-vet=off", "-count=1", "-timeout", "120s", "-run", "^"+run+"$", "./"+pkgdir)
+	args := []string{"test", "-modfile=" + filepath.Join(d, "go.mod"), "-overlay", ovFile, "-vet=off", "-count=1", "-timeout", "300s", "-run", "^" + run + "$"}
+	if verbose {
+		args = append(args, "-v")
+	}
+	args = append(args, "./"+pkgdir)
+	cmd := exec.Command("go", args...)
 	cmd.Dir = repo
 	cmd.Env = append(os.Environ(), "GOFLAGS=-mod=mod", "GOPROXY=off", "GOSUMDB=off", "GOTOOLCHAIN=local")
 	out, err := cmd.CombinedOutput()
@@ -704,10 +762,10 @@ func runReplayTemplate(repo, tmpl string, o *Obligation, model map[string]string
 	if len(txt) > 6000 {
 		txt = txt[:6000]
 	}
-	if err != nil && strings.Contains(txt, "GOVC-REPLAY-VIOLATION") {
+	if err != nil && (strings.Contains(txt, "GOVC-REPLAY-VIOLATION") || strings.Contains(txt, "GOVC-BOUNDED-VIOLATION")) {
 		return true, src, txt, "the real function run on the model input violates the contract clause"
 	}
-	if err != nil && (strings.Contains(txt, "panic:") || strings.Contains(txt, "FAIL")) && !strings.Contains(txt, "[build failed]") && !strings.Contains(txt, "GOVC-REPLAY-OK") {
+	if err != nil && (strings.Contains(txt, "panic:") || strings.Contains(txt, "FAIL")) && !strings.Contains(txt, "[build failed]") && !strings.Contains(txt, "[setup failed]") && !strings.Contains(txt, "GOVC-REPLAY-OK") {
 		return true, src, txt, "the real function run on the model input fails (panic or test failure)"
 	}
 	return false, src, txt, "model did not reproduce on the real code (or replay could not be built)"
